@@ -286,7 +286,7 @@ func c10(args []string) int {
 	log.DefaultLogger.SetLogLevel(log.FATAL)
 	log.Proxy.SetLogLevel(log.FATAL)
 	registerProtocols()
-	run.Sum.Rule = "pool part: histories of {two-way request, one-way request (receiver nil), send (fails when the connection closed after admission), response, reset / time-out, connection close by upstream / by mosn} on the REAL xprotocol multiplex, ping-pong and binding pools, max_requests in {0,1,2}; exhaustive over the enabled ops to depth 4 (5 thorough) plus random histories of 6-20 ops; every history is drained at the end (all live requests reset); host and cluster upstream_request_active and Requests().Cur() read after every op; non-trivial: contains a one-way request or a connection close; distinct by (pool, max_requests, op sequence)."
+	run.Sum.Rule = "pool part: histories of {two-way request, one-way request (receiver nil), send (fails when the connection closed after admission), response, reset / time-out, connection close by upstream / by mosn} on the REAL xprotocol multiplex, ping-pong and binding pools, max_requests in {0,1,2}; exhaustive over the enabled ops to depth 4 (5 thorough) plus random histories of 6-20 ops; every history is drained at the end (all live requests reset); host and cluster upstream_request_active and Requests().Cur() read after every op; non-trivial: contains a one-way request or a connection close; distinct by (pool, max_requests, op sequence). HTTP/2 pool: histories of {NewStream, NewStream with a failing dial, PAIR of concurrent NewStream calls (goroutines + barrier), GOAWAY frame from the peer, connection close by the peer (FIN, RST) / by mosn, pool.Close(), stream reset} on the REAL http2 pool over a loopback HTTP/2 peer; exhaustive to depth 4 (5), the scripted cold pair + GOAWAY + close + NewStream repeated 300 (3000) times, random histories of 6-20 ops; every history is drained (GOAWAY + close on every open connection); host and cluster upstream_connection_active, the shared client and the closed flags read after every op; non-trivial: contains a GOAWAY or a concurrent pair."
 	var mu sync.Mutex
 	var hs []*ahist
 	collect := func(h *ahist) { mu.Lock(); hs = append(hs, h); mu.Unlock() }
@@ -361,5 +361,6 @@ func c10(args []string) int {
 		}
 	}
 	sh.Close()
+	c10h2(run)
 	return run.Finish()
 }
